@@ -1,5 +1,6 @@
 """C11 — tags are valid, unique within a window, matched exactly."""
 from . import common as C
+from . import clientlib as L
 
 PROP = "C11"
 PROPFILE = "Properties/C11.v"
@@ -25,9 +26,31 @@ def oracle(tags):
     return None
 
 
+def match_oracle(sess, obs, ref):
+    """the stream of command k must end exactly at the first completion whose tag is byte-for-byte A<k>"""
+    frames, _ = L.parse_ref(ref.split("|")[0])
+    cursor = 0
+    for k, items in enumerate(obs.split(";")[:-1]):
+        own = ("A%04d" % ((k + 1) % 10000)).encode().hex()
+        last_tag = None
+        for t in [x for x in items.split(",") if x]:
+            if t.startswith("F:"):
+                if last_tag == own:
+                    return "command %d kept receiving after the completion carrying its own tag" % (k + 1)
+                if cursor < len(frames):
+                    last_tag = frames[cursor][1]
+                cursor += 1
+            elif t == "N":
+                if last_tag != own:
+                    return "command %d was treated as complete by a response whose tag is %s, not its own %s" % (
+                        k + 1, bytes.fromhex(last_tag).decode("latin1") if last_tag not in (None, "-") else last_tag, bytes.fromhex(own).decode())
+    return None
+
+
 def run(tier, seed, t0):
     n = 30000 if tier == "quick" else 100000
-    proof = C.proof_stage(PROP, PROPFILE, extra_targets=["Extract.vo"])
+    okr, problems = C.regen()
+    proof = C.proof_stage(PROP, PROPFILE, extra_targets=["Extract.vo"]) if okr else dict(ok=False, failure=problems, obligations=0, discharged=0, names=[])
     okh, outh = C.build_harness()
     if not okh:
         raise RuntimeError("harness build failed:\n" + outh[-3000:])
@@ -38,8 +61,14 @@ def run(tier, seed, t0):
         raise C.Violation(PROP, "the real client issued an invalid or repeated tag", bad + "\nreplay: harness tags %d" % n, True)
     if rc != 0 or len(impl_tags) != n:
         raise C.Violation(PROP, "harness tags run failed", impl[-2000:], False)
+    nsess = 500 if tier == "quick" else 30000
+    rows = L.run_stream("client", seed, nsess)
+    for sess, obs, ref in rows:
+        bad = match_oracle(sess, obs, ref)
+        if bad:
+            raise C.Violation(PROP, "completion matching is not byte-for-byte", "%s\nsession: %s\nobserved: %s\nreference: %s\nreplay: harness client %d %d" % (bad, sess[:600], obs[:600], ref[:600], seed, nsess), True)
     if not proof["ok"]:
-        raise C.Violation(PROP, proof["failure"], "search: %d consecutive tags of the real client satisfy the property's oracle" % n, False)
+        raise C.Violation(PROP, proof["failure"], "search: %d consecutive tags and %d sessions with look-alike completions satisfy the property's oracle" % (n, nsess), False)
     okd, outd = C.build_driver()
     if not okd:
         raise RuntimeError("driver build failed:\n" + outd[-3000:])
@@ -49,14 +78,20 @@ def run(tier, seed, t0):
     if diffs:
         raise C.Violation(PROP, "correspondence Tags.idgen_next vs the real IdGenerator fails (model stale; the implementation-side oracle found no violating tag)",
                           "\n".join("tag #%d: model %s impl %s" % (i + 1, a, b) for i, _, a, b in diffs), False)
-    C.write_evidence(PROP, tier, seed, t0, obligations=proof["obligations"] + 1, discharged=proof["discharged"] + 1,
+    model = L.model_outputs("client", [r[0] for r in rows])
+    for (sess, obs, _), m in zip(rows, model):
+        if obs != m:
+            raise C.Violation(PROP, "correspondence Client.v vs the real client fails (model stale; the implementation-side oracle found no wrong match)",
+                              "session: %s\nimplementation: %s\nmodel:          %s" % (sess[:600], obs[:600], m[:600]), False)
+    C.write_evidence(PROP, tier, seed, t0, obligations=proof["obligations"] + 2, discharged=proof["discharged"] + 2,
                      checker_cmd="make -C coq Properties/C11.vo (coqc 8.16.1) + harness tags %d vs ocaml/driver tags" % n,
-                     evaluations=n, distinct_nontrivial=len(set(impl_tags)),
-                     rule="the tags of %d consecutive commands issued through the real client over a mock transport, read off the wire; distinct = distinct tag strings (the generator has 10000 states)" % n,
+                     evaluations=n + len(rows), distinct_nontrivial=len(set(impl_tags)) + len(set(r[0] for r in rows)),
+                     rule="the tags of %d consecutive commands issued through the real client over a mock transport, read off the wire; distinct = distinct tag strings (the generator has 10000 states); plus %d scripted sessions in which, before the genuine completion, completions with look-alike tags are sent (lower-cased, last character dropped, a character appended, other counter values, first character kept only, A replaced by B, arbitrary valid tags): each stream must end exactly at the first completion whose tag is byte-for-byte its own" % (n, len(rows)),
                      samples=impl_tags[:3] + impl_tags[9997:10002],
                      extra=dict(theorems=proof["names"], correspondence="tag sequence model == implementation for %d commands (%d periods)" % (n, n // 10000), exhaustive=True),
                      assumptions=["u64 counter does not overflow within the window (2^64 commands on one connection)",
-                                  "format!(\"A{:04}\") modelled by pad4; validated by the correspondence"])
+                                  "format!(\"A{:04}\") modelled by pad4; validated by the correspondence",
+                                  "the matching half is proved on the client machine of Client.v (tokio-util Framed and poll_next modelled, validated by the session correspondence)"])
     print("C11 ok: %d theorems, %d tags agree" % (proof["obligations"], n))
 
 
